@@ -900,6 +900,12 @@ impl Real {
             if n.id() == 0 {
                 continue;
             }
+            if self.docs[*doc].expanded && matches!(n, XmlNode::Text(_) | XmlNode::CData(_) | XmlNode::EntityReference(_)) {
+                // in the text-expanded view a raw piece is represented by the merged node of its run
+                if matches!(n.parent_node(), Some(XmlNode::Element(_))) {
+                    continue;
+                }
+            }
             let k = Key { doc: *doc, id: n.id() };
             if !visited.contains(&k) {
                 fails.push(Fail::new(
